@@ -133,9 +133,9 @@ pub fn plan(prop: &str, tier: &str) -> Option<Plan> {
             p
         }
         "C11" => base(1_200_000, 20_000_000, "one configuration and one seeded operation sequence over the whole single-thread-usable trait surface (all alloc flavours, drop/detach/dealloc, discard_freelist, set_minimum_segment_size, increase_discarded, rewind, clear; Vec / anon / file) executed in lock-step on sync::Arena (with spurious weak-CAS failures injected) and unsync::Arena as the executable reference model; equal observation tuples (result kind, error kind, offset, capacity, buffer extent, allocated, discarded, remaining, free-list snapshot, refs) after every step. Non-trivial = at least 4 operations with a release or a slow-path allocation; distinct by abstract state sequence hash"),
-        "C02" => base(400_000, 8_000_000, "seeded schedules (random / sticky / PCT / targeted-preemption strategies, spurious weak-CAS failures) of 2..4 threads x 1..12 operations (alloc_bytes / alloc_aligned_bytes / alloc<T> / owned variants / drop / keep-for-ever) on clones of one sync::Arena after a single-threaded set-up that fills the arena and frees a random subset; oracles inside scheduling steps: new range in data area and disjoint from all live ranges, all live bytes equal their shadow after every value-changing access and before every arena zeroing, every intercepted address inside arena/header. Non-trivial = a list operation (slow-path allocation or release) of one thread overlapped in time with one of another thread, or a CAS failed; distinct = distinct hash of the normalised access trace (thread, location, op, outcome)*"),
-        "C07" => base(400_000, 8_000_000, "schedules as C02 (Optimistic / Pessimistic) plus discard_freelist and threads that keep or detach allocations for ever or finish early; busy-wait detector parks a thread after 256 accesses without any value-changing write by anybody; verdicts: all unfinished threads parked and a 4096-step-per-thread round-robin confirmation without change (V1), solo thread > 20000 steps in one call (V2), no call completed in 50000 steps (V3). Non-trivial / distinct as C02"),
-        "C12" => base(400_000, 6_000_000, "schedules as C02 plus programs that clone / drop arena values and move owned buffers between threads (mailbox = release/acquire pair), teardown inside the simulation; FastTrack-style vector clocks with C++20 release sequences built from the Ordering arguments actually passed; plain accesses = owner writes/reads through handles, arena zeroing, unmap/free; oracle: no conflicting plain/plain or plain/atomic accesses unordered by happens-before. Non-trivial = more than 4 conflict checks and >= 2 context switches; distinct by access-trace hash"),
+        "C02" => base(800_000, 16_000_000, "seeded schedules (random / sticky / PCT / targeted-preemption / stall-before-CAS strategies, spurious weak-CAS failures) of 2..4 threads x 1..12 operations (alloc_bytes / alloc_aligned_bytes / alloc<T> / owned variants / drop / keep-for-ever) on clones of one sync::Arena after a single-threaded set-up that fills the arena and frees a random subset; oracles inside scheduling steps: new range in data area and disjoint from all live ranges, all live bytes equal their shadow after every value-changing access and before every arena zeroing, every intercepted address inside arena/header. Non-trivial = a list operation (slow-path allocation or release) of one thread overlapped in time with one of another thread, or a CAS failed; distinct = distinct hash of the normalised access trace (thread, location, op, outcome)*"),
+        "C07" => base(800_000, 16_000_000, "schedules as C02 (Optimistic / Pessimistic) plus discard_freelist and threads that keep or detach allocations for ever or finish early; busy-wait detector parks a thread after 256 accesses without any value-changing write by anybody; verdicts: all unfinished threads parked and a 4096-step-per-thread round-robin confirmation without change (V1), solo thread > 20000 steps in one call (V2), no call completed in 50000 steps (V3). Non-trivial / distinct as C02"),
+        "C12" => base(800_000, 12_000_000, "schedules as C02 plus programs that clone / drop arena values and move owned buffers between threads (mailbox = release/acquire pair), teardown inside the simulation; FastTrack-style vector clocks with C++20 release sequences built from the Ordering arguments actually passed; plain accesses = owner writes/reads through handles, arena zeroing, unmap/free; oracle: no conflicting plain/plain or plain/atomic accesses unordered by happens-before. Non-trivial = more than 4 conflict checks and >= 2 context switches; distinct by access-trace hash"),
         _ => return None,
     })
 }
